@@ -545,6 +545,29 @@ def run(ctx):  # noqa: C901, PLR0912, PLR0915
     from . import common
     common.index_lists_not_mutated_while_iterated(ctx, 'C02.R4')
     common.copies_are_deep(ctx, 'C02.R2')   # published content changes only through a commit that counts the versions up
+    # a descriptor enters a transaction only with a parent chain that ends at an MDS: add_descriptor finds the source MDS by
+    # walking up the tree (get_mds_descriptor raises for a parent handle that does not exist) - on every path of set_source_mds
+    ssm = repo.func('sdc11073.mdib.providermdibxtra.ProviderMdibMethods.set_source_mds')
+    la_s = local_assignments(ssm.node)
+    n_ssm = 0
+    for c in calls_in(ssm.node, 'set_source_mds'):
+        if not c.args:
+            continue
+        n_ssm += 1
+        names_, todo_, walked = set(), [c.args[0]], False
+        while todo_:
+            e_ = todo_.pop()
+            for x_ in ast.walk(e_):
+                if isinstance(x_, ast.Call) and call_name(x_) == 'get_mds_descriptor':
+                    walked = True
+                if isinstance(x_, ast.Name) and x_.id not in names_:
+                    names_.add(x_.id)
+                    todo_.extend(la_s.get(x_.id, []))
+        ctx.ob('C02.R4', f'set_source_mds({unparse(c.args[0])[:40]}) comes from the tree walk', walked,
+               'the source MDS of a new descriptor is the root of its (existing) parent chain' if walked else
+               f'set_source_mds takes the MDS from {unparse(c.args[0])[:60]} without walking up the parent chain: a descriptor '
+               f'whose parent handle does not exist is no longer rejected and is committed as an orphan', fi=ssm, node=c)
+    ctx.floor('C02.R4', n_ssm, 1, 'source MDS assignments in ProviderMdibMethods.set_source_mds')
     # ------------------------------------------------------------ R5 single writer
     regs = [w for w in yields[0].withs]
     held = [unparse(i.context_expr) for w in regs for i in w.items]
